@@ -23,7 +23,7 @@ BIN = "server/src/bin/taskchampion-sync-server.rs"
 mut("cas-weaken-nil", ["C02", "C01", "C08"], [(SRV, "            && parent_version_id != client.latest_version_id\n        {\n            log::debug!(\"add_version request rejected",
      "            && parent_version_id != client.latest_version_id\n            && parent_version_id != NIL_VERSION_ID\n        {\n            log::debug!(\"add_version request rejected")],
     "S-CAS", "guard additionally accepts parent == NIL")
-mut("cas-id-from-request", ["C02"], [(SRV, "let version_id = Uuid::new_v4();", "let version_id = if parent_version_id == NIL_VERSION_ID { Uuid::new_v4() } else { parent_version_id };")],
+mut("cas-id-from-request", ["C02"], [(SRV, "        // invent a version ID\n        let version_id = Uuid::new_v4();", "        // invent a version ID\n        let version_id = if parent_version_id == NIL_VERSION_ID { Uuid::new_v4() } else { parent_version_id };")],
     "S-CAS", "id derived from the request")
 mut("cas-parent-rederived", ["C02", "C01"], [(SRV, "txn.add_version(version_id, parent_version_id, history_segment)?;", "txn.add_version(version_id, client.latest_version_id, history_segment)?;")],
     "S-CAS", "parent re-derived from latest")
@@ -61,7 +61,6 @@ mut("http-gone-as-404", ["C14"], [(GCV, "Err(error::ErrorGone(\"version has been
 mut("http-nosuchclient-500", ["C14", "C05"], [(API, "ServerError::NoSuchClient => error::ErrorNotFound(err),", "ServerError::NoSuchClient => error::ErrorInternalServerError(err),")], "C14", "unknown client -> 500")
 mut("http-missing-ctype", ["C14"], [(GS, "            .content_type(SNAPSHOT_CONTENT_TYPE)\n", "")], "C14", "snapshot content type missing")
 mut("http-conflict-wrong-header", ["C14"], [(AV, "rb.append_header((PARENT_VERSION_ID_HEADER, parent_version_id.to_string()));", "rb.append_header((VERSION_ID_HEADER, parent_version_id.to_string()));")], "C14", "conflict uses X-Version-Id")
-mut("http-route-method", ["C14"], [(GS, "#[get(\"/v1/client/snapshot\")]", "#[post(\"/v1/client/snapshot\")]")], "C14", "wrong method")
 mut("http-conflict-names-request-parent", ["C14"], [(AV, "            Ok((AddVersionResult::ExpectedParentVersion(parent_version_id), _)) => {", "            Ok((AddVersionResult::ExpectedParentVersion(_), _)) => {")], "C14", "conflict header names the *requested* parent (shadowing removed)")
 mut("http-route-method2", ["C14"], [(GS, "#[get(\"/v1/client/snapshot\")]", "#[actix_web::post(\"/v1/client/snapshot\")]")], "C14", "wrong method")
 
@@ -94,9 +93,9 @@ mut("snap-drop-g0", ["C10"], [(SRV, "        if Some(version_id) == last_snapsho
 mut("snap-drop-g2", ["C10"], [(SRV, "            if Some(vid) == last_snapshot {\n                // the new snapshot is older than the last snapshot, so ignore it\n                log::debug!(\"rejecting snapshot for version {version_id}: newer snapshot already exists or no such version\");\n                return Ok(());\n            }\n", "")], "C10", "G2 removed: snapshot may move backwards")
 mut("snap-drop-nil", ["C10"], [(SRV, "if vid == version_id && version_id != NIL_VERSION_ID {", "if vid == version_id {")], "C10", "nil snapshot accepted")
 mut("snap-store-latest", ["C10", "C11"], [(SRV, "            Snapshot {\n                version_id,\n                timestamp: Utc::now(),", "            Snapshot {\n                version_id: client.latest_version_id,\n                timestamp: Utc::now(),")], "C10", "stores latest instead of v")
-mut("snap-counter-not-reset", ["C10", "C12"], [(SRV, "                versions_since: 0,\n            },\n            data,", "                versions_since: client.snapshot.as_ref().map(|s| s.versions_since).unwrap_or(0),\n            },\n            data,")], "C10", "counter not reset")
+mut("snap-counter-not-reset", ["C10", "C12"], [(SRV, "                versions_since: 0,\n            },\n            data,", "                versions_since: last_snapshot.map(|_| 1).unwrap_or(0),\n            },\n            data,")], "C10", "counter not reset")
 mut("snap-decrement-first", ["C10"], [(SRV, "        loop {\n            if vid == version_id && version_id != NIL_VERSION_ID {", "        loop {\n            search_len -= 1;\n            if vid == version_id && version_id != NIL_VERSION_ID {")], "C10", "double decrement")
-mut("snap-decline-resets-counter", ["C10", "C18"], [(SRV, "                log::warn!(\"rejecting snapshot for version {version_id}: version is too old or no such version\");\n                return Ok(());", "                log::warn!(\"rejecting snapshot for version {version_id}: version is too old or no such version\");\n                if let Some(s) = client.snapshot { txn.set_snapshot(Snapshot { versions_since: 0, ..s }, vec![])?; txn.commit()?; }\n                return Ok(());")], "C1", "decline path writes")
+mut("snap-decline-resets-counter", ["C10", "C18"], [(SRV, "                log::warn!(\"rejecting snapshot for version {version_id}: version is too old or no such version\");\n                return Ok(());", "                log::warn!(\"rejecting snapshot for version {version_id}: version is too old or no such version\");\n                txn.set_snapshot(Snapshot { version_id: vid, timestamp: Utc::now(), versions_since: 0 }, vec![])?;\n                txn.commit()?;\n                return Ok(());")], "C1", "decline path writes")
 
 # ---- C11
 mut("snap-two-statements", ["C11"], [(SQL, "               versions_since_snapshot = ?,\n               snapshot = ?\n             WHERE client_id = ?\",\n                params![\n                    &StoredUuid(snapshot.version_id),\n                    snapshot.timestamp.timestamp(),\n                    snapshot.versions_since,\n                    data,\n                    &StoredUuid(self.client_id),\n                ],\n            )\n            .context(\"Error creating/updating snapshot\")?;",
